@@ -842,7 +842,7 @@ package erpc
 //@   requires @C03 sentinelsIntact()
 //@   ensures[reader-ends-in-disconnect] ghost.disconnectRuns == old(ghost.disconnectRuns) + 1
 //@   ensures[reader-ends-in-disconnect-after-panic]! ghost.disconnectRuns == old(ghost.disconnectRuns) + 1
-//@   requires @C02 !ghost.pendingReplyLock
+//@   requires @C02 !ghost.pendingReplyLock && s.callCmdMap != nil && s.peer.sessHub != nil
 //@   ensures[no-orphan-reply-lock] @C02 !ghost.pendingReplyLock
 //@   loop 0: invariant[reply-lock-handed-on] @C02 !ghost.pendingReplyLock
 //@   loop 0: invariant[every-accepted-frame-dispatched] @C03 ghost.framesRead - old(ghost.framesRead) == (ghost.handleScheduled - old(ghost.handleScheduled)) + (ghost.handleRuns - old(ghost.handleRuns))
